@@ -98,6 +98,56 @@ fn case_strategy(depth: u32, size: u32) -> BoxedStrategy<Case> {
                 go(&t, salt, &mut k)
             };
             let (t, u0, w0) = if structural && mode % 2 == 1 { (near(t, pick_u), near(u0, pick_w), near(w0, pick_u ^ pick_w)) } else { (t, u0, w0) };
+            // a tenth of the cases are built, not drawn (pick_w decides):
+            //  - self-similar: pattern = C[w], target = C[C[w]] (or that wrapped once more): the
+            //    result of the substitution equals the pattern although the target did not
+            //  - deep twins: two chains nested 9..18 levels deep that are identical except (in two
+            //    thirds of the cases) for the innermost atom; one is the pattern, the other sits in the target
+            let ctx_of = |x: &ItemSpec, sibs: &ItemSpec, at: u16| -> ItemSpec {
+                let mut v: Vec<ItemSpec> = match sibs {
+                    ItemSpec::List(v) => v.iter().take(2).cloned().collect(),
+                    a => vec![a.clone()],
+                };
+                let p = gen::pick_index(at, v.len() + 1);
+                v.insert(p, x.clone());
+                ItemSpec::List(v)
+            };
+            if pick_w % 10 == 0 {
+                let w = w0.clone();
+                let u = ctx_of(&w, &u0, pick_u);
+                let mut t2 = ctx_of(&u, &u0, pick_u);
+                if pick_w % 20 == 0 {
+                    t2 = ItemSpec::List(vec![ItemSpec::Int(77), t2]);
+                }
+                let s = t2.points() as i32;
+                let idx = if (idx0 as i64).abs() <= 22 { (idx0 as i64 * s as i64 / 5).clamp(-2 * s as i64, 2 * s as i64) as i32 } else { idx0 };
+                return Case { name: name.to_string(), t: t2, u, w, idx, rest, other };
+            }
+            if pick_w % 10 == 1 {
+                let depth = 9 + (pick_u % 10) as usize;
+                let chain = |inner: ItemSpec| -> ItemSpec {
+                    let mut x = inner;
+                    for level in 0..depth {
+                        x = if level % 3 == 1 { ItemSpec::List(vec![ItemSpec::Int(level as i32), x]) } else { ItemSpec::List(vec![x]) };
+                    }
+                    x
+                };
+                let a = ItemSpec::Int(5);
+                let b = match (pick_u / 10) % 3 {
+                    0 => ItemSpec::Int(5),
+                    1 => ItemSpec::Int(6),
+                    _ => ItemSpec::List(vec![ItemSpec::Int(5)]),
+                };
+                let u = chain(b);
+                let t2 = match (pick_u / 30) % 3 {
+                    0 => chain(a),
+                    1 => ItemSpec::List(vec![ItemSpec::name("a"), chain(a), ItemSpec::Int(1)]),
+                    _ => ItemSpec::List(vec![chain(a), u0.clone()]),
+                };
+                let s = t2.points() as i32;
+                let idx = if (idx0 as i64).abs() <= 22 { (idx0 as i64 * s as i64 / 5).clamp(-2 * s as i64, 2 * s as i64) as i32 } else { idx0 };
+                return Case { name: name.to_string(), t: t2, u, w: w0, idx, rest, other };
+            }
             let pre: Vec<ItemSpec> = t.preorder().into_iter().cloned().collect();
             let s = pre.len() as i32;
             // pattern present (a sub-item of t) in ~60 % of the cases, fresh otherwise
@@ -316,10 +366,11 @@ pub fn run(ctx: &Ctx) -> PropReport {
     );
     rep.assumptions.push("operand order follows the unit tests where they pin it (SUBST, CONTAINS, MEMBER, NTH modulo len+1); unspecified and not value-compared: EXTRACT outside [0,S) (either normalisation accepted), INSERT i <= 0, INSERT i >= S (no change or normalised), CAR of ( ), NTH with k = 0, CDR of an atom (only ( ) may be pushed)".into());
     let (d, sz) = ctx.tier.pick((4, 14), (6, 40));
-    rep.push(run_sharded(ctx, "instructions", ctx.tier.pick(60_000, 2_000_000), move || case_strategy(d, sz), judge, |c| c.to_json()));
-    rep.push(run_sharded(ctx, "item-api", ctx.tier.pick(20_000, 600_000), move || case_strategy(d, sz), judge_api, |c| {
+    rep.push(run_sharded(ctx, "instructions", ctx.tier.pick(300_000, 3_000_000), move || case_strategy(d, sz), judge, |c| c.to_json()));
+    rep.push(run_sharded(ctx, "item-api", ctx.tier.pick(100_000, 1_000_000), move || case_strategy(d, sz), judge_api, |c| {
         json!({"instruction": "api", "t": c.t.to_json(), "u": c.u.to_json(), "w": c.w.to_json(), "idx": c.idx, "text": format!("t={} u={} w={}", c.t.render(), c.u.render(), c.w.render())})
     }));
+    rep.push(crate::props::incontext::run(ctx, ctx.tier.pick(40_000, 600_000)));
     rep
 }
 
